@@ -15,6 +15,7 @@ theorem order_heliocentric : ∀ coord ∈ [1, 2], ∀ s ∈ stepOf (coord, 0, 0
 /-- F18 again: with the second corrector switched on the words with two `B`s still agree up to length 3, but no longer at
     length 4 for the kernels that achieve it without -/
 theorem order_with_corrector2 : ∀ kern ∈ [1, 2, 3], ∀ corr ∈ [3, 17], ∀ s ∈ stepOf (0, kern, corr, 1),
-    WordOrder s [4, 4, 3] κWH tolWH ∧ ¬ WordOrder s [4, 4, 4] κWH (1/1000) := by
+    WordOrder s [4, 4, 3] κWH tolWH ∧ (whCorr2IsInverse = false → ¬ WordOrder s [4, 4, 4] κWH (1/1000)) ∧
+    (whCorr2IsInverse = true → WordOrder s [4, 4, 4] κWH tolWH) := by
   decide +kernel
 end RV.C01.Whfast
